@@ -30,7 +30,15 @@ func c18Lex(src string) string {
 		return "-"
 	}
 	out := make([]string, len(toks))
+	sawError := false
 	for i, t := range toks {
+		if t.ID == parser.TokenEOF && sawError {
+			// the lexer stopped at an error token; the parser never reads past it and the
+			// property constrains nothing about an EOF token that happens to follow
+			out[i] = "eof-after-error"
+			continue
+		}
+		sawError = sawError || t.ID == parser.TokenError
 		out[i] = fmt.Sprintf("%d,%d,%d", t.Pos, t.Lline, t.Lpos)
 	}
 	return strings.Join(out, " ")
